@@ -253,10 +253,3 @@ Proof.
   - right. rewrite E1. reflexivity.
 Qed.
 
-Print Assumptions split_piece_wf.
-Print Assumptions split_piece_eval.
-Print Assumptions split_piece_eval_raw.
-Print Assumptions split_piece_eval_sep.
-Print Assumptions split_last_piece_eval.
-Print Assumptions split_piece_start.
-Print Assumptions split_piece_end.
